@@ -91,6 +91,8 @@ def execute(job):
     root = os.path.join(d, "root")
     init = job.get("init", {"f": "c1"})
     for n, c in init.items():
+        if "#" in n:           # a file that sits, from the start, at the name a conflict-copy of <content> on <path> would take
+            n = n.split("#")[0] + ".conflict-" + CFG["hashes"][n.split("#")[1]][:12]
         os.makedirs(os.path.dirname(os.path.join(root, n)), exist_ok=True)
         with open(os.path.join(root, n), "wb") as f:
             f.write(CONTENTS.get(c, b""))          # "c0" = the empty version (only the hub's lock file starts as it)
